@@ -80,6 +80,8 @@ def check_literal(s):
         bad = f'normal form {tree!r}'
     elif not p.is_exact_match(s):
         bad = 'does not exact-match itself'
+    elif not _compiled_ok(p, s):
+        bad = 'after compile() it no longer exact-matches itself (or matches a neighbour)'
     else:
         for t in _neighbours(s):
             if p.is_exact_match(t):
@@ -88,8 +90,24 @@ def check_literal(s):
     if bad:
         return V('C01|literal|%r' % s, f"Pregex({s!r}) -> {text!r}: {bad}",
                  f"from mc.props.c01 import lit_tree\nfrom mc import rx\np = Pregex({s!r})\n"
-                 f"assert rx.parse(str(p)).tree == lit_tree({s!r}), str(p)\nassert p.is_exact_match({s!r})"), text
+                 f"assert rx.parse(str(p)).tree == lit_tree({s!r}), str(p)\nassert p.is_exact_match({s!r})\np.compile()\nassert p.is_exact_match({s!r}) and p.get_matches({s!r}) == [{s!r}]"), text
     return None, text
+
+
+def _compiled_ok(p, s):
+    """the compiled form (built from the exported text) matches the same literal"""
+    try:
+        q = NS['Pregex'](s)
+        q.compile()
+        if not q.is_exact_match(s) or q.get_matches(s) != [s]:
+            return False
+        for t in list(_neighbours(s))[:6]:
+            if q.is_exact_match(t):
+                return False
+        e = q.get_pattern()
+        return e.isprintable() and rx.equiv(e, str(q))[0] in ('tree', 'texts')
+    except Exception:  # noqa: BLE001
+        return False
 
 
 def _task_literals(chunk):
